@@ -7,3 +7,5 @@ for prop in "$@"; do
   echo "  $prop exit=$rc $(echo "$out" | grep -c '^VIOLATION') violation-lines; $(echo "$out" | grep '^\[check\]' | sed 's/.*cases=/cases=/')"
 done
 git -C /repo checkout -- .
+# restore the evidence files of the unchanged tree (a run against a seeded change must never be committed as evidence)
+git -C /verif checkout -- evidence 2>/dev/null
